@@ -55,6 +55,10 @@ Step(e) ==
     THEN /\ cache' = Store(cache, Set(e.q), Received(db, Set(e.q)))
          /\ UNCHANGED <<db, skip, bad, nskip>>
     ELSE /\ bad' = bad \cup {l} /\ skip' = TRUE /\ UNCHANGED <<db, cache, nskip>>
+         \* diagnostics for the replay record: what the rules admit here
+         /\ PrintT(<<"@@V", ToJson([line |-> l,
+                                    admissible |-> {[q |-> o.q, v |-> o.v] : o \in Outcomes(e.n, cache, db)},
+                                    valid |-> {p \in PrefsOf(e.n, Core(e.n) \cup Opt(e.n)) : Valid(cache, p)}])>>)
 
 Next == /\ l <= Len(Trace)
         /\ Step(Trace[l])
